@@ -20,7 +20,7 @@ func init() {
 		Rule: "per ecosystem: lists of length 1..64 drawn from cluster pools with duplicates and Compare-equal respellings; all permutations for length <= 6 (in process) and sampled " +
 			"permutations beyond, sorted with slices.SortFunc + Compare in process and by the built 'univers <eco> sort' binary (output parsed back with strconv unquoting); " +
 			"oracles: output multiset == input multiset, every adjacent pair non-decreasing, identical sequence of equivalence classes for every input order; invalid-element " +
-			"injection at every position must give exit 1, no list and a diagnostic naming the element. Lists whose pairwise matrix is not a total preorder are skipped (C01's finding). " +
+			"injection at every position must give exit 1, no list and a diagnostic naming the element. " +
 			"Non-trivial = distinct (ecosystem, multiset, permutation) with >= 2 classes and >= 1 duplicate or equal respelling",
 		Assumptions: []string{"the implementation's Compare is the order (law monitor)", "inputs carry no surrounding whitespace here (C18's subject)"},
 		MinEvals:    20000,
@@ -176,9 +176,9 @@ func evalC07(c *core.Ctx, e *eco.Eco, op string, args []string) []core.Violation
 		return []core.Violation{{Eco: e.Name, Op: op, Args: args, Rule: rule, Got: got, Want: want}}
 	}
 	switch op {
-	case "sort", "cli-sort":
-		ref, orig, ok := sortInProcess(e, args)
-		if !ok || !isPreorder(orig) {
+	case "sort", "cli-sort", "sort-alpm-mixed-pkgrel":
+		ref, _, ok := sortInProcess(e, args)
+		if !ok {
 			return nil
 		}
 		out := ref
@@ -283,6 +283,18 @@ func runC07(c *core.Ctx, ck *Check) {
 		e := j.e
 		r := c.Rand("c07", e.Name, itoa(j.k))
 		p := BuildPool(e, r, 120, w)
+		full := p
+		if e.Name == "alpm" {
+			// vercmp defines a missing pkgrel as equal to any pkgrel, so lists that mix both families are
+			// inherently order-dependent (C01's scoped exclusion); they are evaluated under their own op
+			fam := &Pool{Eco: e}
+			for x, s := range p.Strs {
+				if alpmHasPkgrel(s) == (j.k%2 == 0) {
+					fam.Strs, fam.Vers = append(fam.Strs, s), append(fam.Vers, p.Vers[x])
+				}
+			}
+			p = fam
+		}
 		if len(p.Strs) < 8 {
 			return
 		}
@@ -311,7 +323,8 @@ func runC07(c *core.Ctx, ck *Check) {
 					rs := gen.Respell(e.Name, s, r)
 					if len(rs) > 0 {
 						x := rs[r.IntN(len(rs))]
-						if v, err, pn := e.SafeNewVersion(x); pn == nil && err == nil && v != nil && strings.TrimSpace(x) == x && x != "" {
+						if v, err, pn := e.SafeNewVersion(x); pn == nil && err == nil && v != nil && strings.TrimSpace(x) == x && x != "" &&
+							(e.Name != "alpm" || alpmHasPkgrel(x) == alpmHasPkgrel(s)) {
 							list = append(list, x)
 						}
 					}
@@ -321,9 +334,16 @@ func runC07(c *core.Ctx, ck *Check) {
 			if !ok {
 				continue
 			}
+			if e.Name == "alpm" && n%8 == 7 {
+				mixed := make([]string, 0, 6)
+				for len(mixed) < 6 {
+					mixed = append(mixed, full.Strs[r.IntN(len(full.Strs))])
+				}
+				w.Count("evaluations", 1)
+				rep(evalC07(c, e, "sort-alpm-mixed-pkgrel", mixed))
+			}
 			if !isPreorder(orig) {
-				w.Count("lists_skipped_not_preorder", 1)
-				continue
+				w.Count("lists_on_which_compare_is_not_a_preorder", 1)
 			}
 			cs0, _ := classSeq(e, func() []string { o, _, _ := sortInProcess(e, list); return o }())
 			dups := len(list) - len(uniq(list))
